@@ -1,4 +1,5 @@
 \* the code as it is: what holds in spite of the two defects
+\* measured: 2 520 572 / 11 935 349, depth 39 (distinct / generated states)
 CONSTANTS NTx = 3 Kind <- KindS Sender <- SenderS Nonce <- NonceS NAccs = 1 Accs <- MCAccs StartEmpty = FALSE
   Max = 3 NPushers = 1 NConsumers = 1 Batch = 2
   MaxPush = 3 MaxBlocks = 1 MaxFail = 0 MaxCrash = 1 MaxClose = 1 MaxPops = 1 MaxExecErr = 0 MaxFatal = 0
